@@ -17,7 +17,10 @@ PAIRS = [(('FULLY_CONNECTED', 'bias'), ('FULLY_CONNECTED', 'nobias')),
          (('EMBEDDING_LOOKUP', 'w4'), ('FULLY_CONNECTED', 'bias')),
          (('ADD', 'tc'), ('MUL', 'tc')),
          (('ADD', 'tc'), ('ADD', 'tc')),
-         (('EMBEDDING_LOOKUP', 'w4'), ('EMBEDDING_LOOKUP', 'w4'))]
+         (('EMBEDDING_LOOKUP', 'w4'), ('EMBEDDING_LOOKUP', 'w4')),
+         # the second sharer is an operator the quantizer does not know
+         (('ADD', 'tc'), ('MAXIMUM', 'tc')),
+         (('MUL', 'tc'), ('MAXIMUM', 'tc'))]
 MODES_Q = ['NQ', 'SRQ8a', 'SRQ16', 'SRQ8w4', 'DRQ8c', 'DRQ8t', 'DRQ4c', 'WO8c',
            'WO8a', 'WO4c', 'FP16']
 
@@ -33,11 +36,17 @@ def cases(tier):
     for how in ('tensor', 'buffer'):
       yield {'ir': {'subgraphs': [{'ops': [mk(*a), mk(*b, share=[how, 0, 0])],
                                    'exports': []}]}, 'modes': modes}
-    # across two subgraphs (weights shared between signatures)
-    yield {'ir': {'subgraphs': [
-        {'ops': [mk(*a)], 'exports': []},
-        {'ops': [mk(*b, share=['buffer', 0, 0])], 'exports': [],
-         'prefix': 'b_', 'key': 'sig1'}]}, 'modes': modes}
+    # across two subgraphs (weights shared between signatures); second form:
+    # the tied constants also carry the same NAME in both subgraphs
+    for cp in (None, 'k_'):
+      s0 = {'ops': [mk(*a)], 'exports': []}
+      s1 = {'ops': [mk(*b, share=['buffer', 0, 0])], 'exports': [],
+            'prefix': 'b_', 'key': 'sig1'}
+      if cp:
+        s0['cprefix'] = cp
+        s1['cprefix'] = cp
+      yield {'ir': {'subgraphs': [s0, s1]},
+             'modes': modes if cp is None else ['NQ', 'DRQ8c', 'WO8c', 'SRQ8a']}
   if True:
     for (a, b) in PAIRS:
       for how in ('tensor', 'buffer'):
@@ -104,14 +113,17 @@ def run_case(case, note, skip):
   shared = {b: u for b, u in users.items()
             if len(u) > 1 or len(consumers.get(u[0], [])) > 1}
   choices = [[mo for mo in case['modes'] if md.supported(m.type, mo)]
-             for m in metas]
+             if m.type in irm.SUPPORTED else ['NQ'] for m in metas]
   for assign in itertools.product(*choices):
     sub = ','.join(assign)
     if only is not None and only != sub:
       continue
     recipe = []
     for m, mo in zip(metas, assign):
-      recipe.append(md.rule(md.op_regex(built, m), m.type, mo))
+      if m.type in irm.SUPPORTED:
+        recipe.append(md.rule(md.op_regex(built, m), m.type, mo))
+    if not recipe:
+      continue
     res['evals'] += 1
     res['transitions'] += 1
     try:
